@@ -8,8 +8,8 @@
    Every step is also run through the abstract specification (sstep on abs of the state) and
    the outputs compared (data_out). *)
 let split c s = if s = "" then [] else String.split_on_char c s
-let dt_of = function "i2" -> I2 | "f4" -> F4 | "f8" -> F8 | s -> failwith ("dtype " ^ s)
-let str_dt = function I2 -> "i2" | F4 -> "f4" | F8 -> "f8"
+let dt_of = function "i2" -> I2 | "f4" -> F4 | "f8" -> F8 | "f2" -> F2 | "c8" -> C8 | s -> failwith ("dtype " ^ s)
+let str_dt = function I2 -> "i2" | F4 -> "f4" | F8 -> "f8" | F2 -> "f2" | C8 -> "c8"
 let shape_of s = List.map (fun x -> nat_of_int (int_of_string x)) (split '.' s)
 let str_shape sh = String.concat "." (List.map (fun n -> string_of_int (int_of_nat n)) sh)
 let vals_of s = List.map z_of_string (split ',' s)
@@ -21,6 +21,7 @@ let scl_of a = match a with
 let str_scl = function None -> "-" | Some (s, i) -> string_of_z s ^ "," ^ string_of_z i
 let op_of tok = match split ':' tok with
   | ["f8"] -> GetFdata (Fill, F8) | ["f4"] -> GetFdata (Fill, F4) | ["fi"] -> GetFdata (Fill, I2)
+  | ["f2"] -> GetFdata (Fill, F2) | ["fc"] -> GetFdata (Fill, C8) | ["u2"] -> GetFdata (Unchanged, F2) | ["uc"] -> GetFdata (Unchanged, C8)
   | ["u8"] -> GetFdata (Unchanged, F8) | ["u4"] -> GetFdata (Unchanged, F4) | ["ui"] -> GetFdata (Unchanged, I2)
   | ["x8"] -> FdataBroken (Fill, F8) | ["x4"] -> FdataBroken (Fill, F4)
   | ["y8"] -> FdataBroken (Unchanged, F8) | ["y4"] -> FdataBroken (Unchanged, F4)
